@@ -30,6 +30,9 @@ static binson_writer *mk_writer(void)
         w->buffer = NULL;
     } else {
         __CPROVER_assume(w->buffer_size <= VC_MAX_BUF);
+#ifdef VC_SMALL_WITNESS
+        __CPROVER_assume(w->buffer_size <= 64 && w->buffer_used <= 128);     /* fallback run: sizes small enough for a counterexample trace */
+#endif
         w->buffer = malloc(w->buffer_size);
         __CPROVER_assume(w->buffer != NULL);
     }
@@ -42,6 +45,9 @@ static bbuf *mk_data(void)
     bbuf *d = malloc(sizeof(*d));
     __CPROVER_assume(d != NULL);
     __CPROVER_assume(d->bsize <= VC_MAX_BUF);
+#ifdef VC_SMALL_WITNESS
+    __CPROVER_assume(d->bsize <= 64);
+#endif
     d->bptr = malloc(d->bsize);
     __CPROVER_assume(d->bptr != NULL);
     return d;
@@ -77,6 +83,9 @@ void h__write_token(void)
         __CPROVER_assume(v->raw.bptr != NULL);
     } else if (VC_T_BLOB(t)) {
         __CPROVER_assume(v->bytes_value.bsize <= VC_MAX_BUF);
+#ifdef VC_SMALL_WITNESS
+        __CPROVER_assume(v->bytes_value.bsize <= 64);
+#endif
         v->bytes_value.bptr = malloc(v->bytes_value.bsize);
         __CPROVER_assume(v->bytes_value.bptr != NULL);
     }
@@ -150,12 +159,18 @@ void h_binson_write_double(void)
     if (r) { H_END(); } else { H_END(); }
 }
 
+#ifdef VC_SMALL_WITNESS
+#define VC_WIT_LEN_OK(len) ((len) <= 64)
+#else
+#define VC_WIT_LEN_OK(len) (1)
+#endif
 #define BLOB_HARNESS(fn, T)                                        \
 void h_##fn(void)                                                  \
 {                                                                  \
     binson_writer *w = mk_writer();                                \
     size_t len = nondet_size_t();                                  \
     __CPROVER_assume(len <= 2147483647);                           \
+    __CPROVER_assume(VC_WIT_LEN_OK(len));                          \
     T *p = malloc(len);                                            \
     __CPROVER_assume(p != NULL);                                   \
     bool r = fn(w, p, len);                                        \
